@@ -17,7 +17,18 @@ from ..comptree import CompFail, Tree, paths
 from ..explore import E1Check
 from ..vloop import Deadlock, HorizonExceeded, ReplayDivergence
 
-RUN_VALUES = [None, 0, 1, 5, 127, 128, -1, "x", 3.5, 0.0, "", [], 10**6]
+import enum
+
+
+class ExitCode(enum.IntEnum):
+    """exit statuses as an application would declare them: members ARE integers"""
+
+    OK = 0
+    WARN = 3
+    TOO_BIG = 200
+
+
+RUN_VALUES = [None, 0, 1, 5, 127, 128, -1, "x", 3.5, 0.0, "", [], 10**6, ExitCode.OK, ExitCode.WARN, ExitCode.TOO_BIG]
 
 
 def expected_for_run_value(v: Any) -> tuple:
@@ -130,7 +141,7 @@ class C15(E1Check):
                     continue
                 # CLI endings
                 for vi in range(len(RUN_VALUES)):
-                    if tree not in ("r", "r(a)") and vi not in (0, 2, 5, 7, 9):
+                    if tree not in ("r", "r(a)") and vi not in (0, 2, 5, 7, 9, 14):
                         continue
                     progs.append({"tree": tree, "cli": True, "svc": svc, "end": {"kind": "run-return", "value": vi}})
                 progs.append({"tree": tree, "cli": True, "svc": svc, "end": {"kind": "run-raise"}})
